@@ -21,6 +21,13 @@ rebound functionally; a loop's state is the tuple of variables assigned in its
 body that exist before it (plus ``self`` for a mutating method); every exit of
 a loop carries that state; ``self`` is a record threaded like a variable.
 
+Auxiliary definitions (a helper function of a module, a helper method of a translated
+class, that the fixed list of definitions does not name): translated like the others
+(as a plain value when it cannot raise, else as an outcome), at their first use, and
+bound by ``let <name> := fun ... => ... in`` at the head of every definition that
+uses them -- no new top-level name, no new file, and the text of a definition from
+which a helper was extracted differs from the old one by beta/zeta only (class Helper).
+
 Objects held by an object (``self.header_table``): the field is a nested record;
 a mutating call on it returns its new state, which is stored back into ``self``
 also when the call raised (``nbind`` of Prelude/PyExtra.v); a property is its
@@ -31,6 +38,7 @@ the generated files take from the hand-written model (the type, so that the
 bridge lemmas are plain equalities).
 """
 import ast
+import copy
 import json
 import os
 import sys
@@ -138,6 +146,10 @@ Definition container_forms (c : Api.container) : list Api.hform :=
 
 """
 
+# calls that the translator interprets by name: a module function of that name would be mistaken for them
+BUILTIN_NAMES = {"len", "int", "bool", "bytes", "bytearray", "ord", "iter", "sorted", "isinstance", "type", "memoryview",
+                 "hex", "deque", "str", "enumerate", "range", "HeaderTuple", "NeverIndexedHeaderTuple", "HeaderTable",
+                 "HuffmanEncoder", "min", "max", "abs", "list", "tuple", "dict", "set", "repr", "print"}
 # Python names that are not usable as Coq identifiers are suffixed with "_"
 RESERVED = {"match", "with", "end", "fun", "let", "in", "if", "then", "else", "return", "as", "at", "fix",
             "cofix", "forall", "exists", "Type", "Prop", "Set", "struct", "where", "for", "using", "mod"}
@@ -339,9 +351,68 @@ class Meth:
         self.pnames = pnames if pnames is not None else [None] * len(ptys)
         self.total, self.defaults, self.ok = total, defaults or {}, ok
         self.truthy = set()   # parameters that the body only uses as the operand of `not` or as a test
+        self.helper = None    # the Helper it is, if it is not one of the named definitions
 
     def __iter__(self):   # (cname, rw, ptys, rty), the original tuple form
         return iter((self.cname, self.rw, self.ptys, self.rty))
+
+
+class Helper:
+    """an auxiliary definition of the source that the fixed list of definitions does not name (a helper
+    function of a module, a helper method of a translated class).  It is translated like the others and
+    bound by a local definition `let <local> := fun ... => ... in` at the head of every definition that
+    uses it, directly or through other helpers: no new top-level names, and a definition from which a
+    helper was extracted stays convertible with (or case-by-case equal to) what it was before."""
+
+    def __init__(self, key, cls, fd, local):
+        self.key, self.cls, self.fd, self.local = key, cls, fd, local
+        self.lam = None       # fun (parameters) => body
+        self.deps = []        # the helpers its own body uses
+        self.error = None     # why it could not be translated
+        self.level = 1        # 0: its text only needs what GInt.v can see
+        self.total = False    # a plain value, not an outcome
+        self.rw = False       # (a method) changes self
+        self.state = "new"
+        self.translate = None  # set where the helper is found: translates it in the context of its own module/class
+        self.entry = None     # (a function) its entry in the table of functions
+        self.meth = None      # (a method) its Meth
+
+    def ensure(self):
+        """translate the helper (once), at its first use: everything emitted before is available to it"""
+        if self.state == "busy":
+            raise Unsupported(f"the helper {self.local} is recursive")
+        if self.state == "new":
+            self.state = "busy"
+            try:
+                self.translate(self)
+            except Unsupported as e:
+                self.error, self.lam = str(e), None
+            self.state = "done"
+        if self.error is not None:
+            raise Unsupported(f"calls the helper {self.local}, whose translation failed: {self.error}")
+
+
+def helper_closure(hs):
+    """the helpers hs and those they use, each after the ones it uses"""
+    out = []
+
+    def visit(h, path):
+        if h in out:
+            return
+        if h in path:
+            raise Unsupported(f"recursive helper {h.local}")
+        if h.error is not None or h.lam is None:
+            raise Unsupported(f"uses the helper {h.local}, whose translation failed: {h.error}")
+        for d in h.deps:
+            visit(d, path + [h])
+        out.append(h)
+    for h in hs:
+        visit(h, [])
+    return out
+
+
+def helper_prefix(hs):
+    return "".join(f"let {h.local} := {h.lam} in\n" for h in helper_closure(hs))
 
 
 class ClsInfo:
@@ -364,8 +435,26 @@ class Fn:
         self.struct_ok = False    # hpack.struct says HeaderTuple.indexable = True, NeverIndexedHeaderTuple(HeaderTuple).indexable = False
         self.init_fields = None   # inside __init__: attribute of self -> (local name, type), as they get assigned
         self.inits = {}           # class -> Coq name of its translated __init__ (a constant: no parameters)
+        self.used_helpers = []    # the helpers the body calls
+        self.level = 1            # 0 while translating for GInt.v: only helpers of level 0 can be used
         self.fresh = 0
         self.nloops = 0
+
+    def fun_entry(self, name):
+        """the entry of a module-level function; a helper is translated when it is first needed"""
+        v = self.funs[name]
+        if isinstance(v, Helper):
+            v.ensure()
+            return v.entry
+        return v
+
+    def use(self, h):
+        if h.error is not None or h.lam is None:
+            raise Unsupported(f"calls the helper {h.local}, whose translation failed: {h.error}")
+        if h.level > self.level:
+            raise Unsupported(f"calls the helper {h.local}, which needs definitions of a later file")
+        if h not in self.used_helpers:
+            self.used_helpers.append(h)
 
     def tmp(self):
         self.fresh += 1
@@ -479,6 +568,8 @@ class Tr:
             m = ci.methods.get(f.attr) if ci else None
         if m is None:
             return None
+        if m.helper is not None:
+            m.helper.ensure()
         return m, text, setter, kind
 
     def call_args(self, m, call, env):
@@ -515,6 +606,8 @@ class Tr:
         return bs, ts
 
     def call_text(self, m, recv, ts):
+        if m.helper is not None:
+            self.fn.use(m.helper)
         if not m.ok:
             raise Unsupported(f"calls {m.cname}, whose translation failed")
         return f"{m.cname} {recv}" + ((" " + " ".join(ts)) if ts else "")
@@ -869,6 +962,8 @@ class Tr:
             bad(n, f"subscript of {vt}")
         if isinstance(n, ast.Call):
             f = n.func
+            if isinstance(f, ast.Name) and f.id in fn.funs and (f.id in env or f.id in BUILTIN_NAMES):
+                bad(n, f"{f.id} is also a local variable, or a module function named like a builtin")
             if isinstance(f, ast.Name):
                 if f.id == "isinstance" and len(n.args) == 2 and not n.keywords:
                     # view: class tests on a container / a form
@@ -968,7 +1063,9 @@ class Tr:
                         return b + [(x, f"bytearray_of {t}")], x, "bytes"
                     bad(n, "bytearray argument")
                 if f.id in fn.funs:
-                    cname, ptys, rty = fn.funs[f.id]
+                    cname, ptys, rty, *hh = fn.fun_entry(f.id)
+                    if hh and hh[0] is not None:
+                        fn.use(hh[0])
                     bs, ts = [], []
                     for a, pt in zip(n.args, ptys):
                         b, t, ty = self.E(a, env, pt)
@@ -1263,7 +1360,63 @@ class Tr:
                         env2 = dict(env)
                         env2[nm] = ("list", aty)     # the first element gives the type of a list that was []
                         return self.with_bindings(b, f"let {nm} := {nm} ++ [{t}] in\n" + cont(env2))
+            if isinstance(v, ast.Call) and isinstance(v.func, ast.Name) and v.func.id in fn.funs:
+                # f(...) for its effect (it can raise); its value is dropped
+                b, t, ty = self.E(v, env)
+                if not b:
+                    return cont(env)
+                return self.with_bindings(b[:-1], self.bind(b[-1][1], "_", cont(env))) if t == b[-1][0] \
+                    else self.with_bindings(b, cont(env))
             bad(s, "expression statement")
+        if isinstance(s, (ast.Assign, ast.AugAssign, ast.Return)) and s.value is not None:
+            # x = <e with one call recv.m(...) of a mutating method inside>: the call is made first and its result
+            # named, when that cannot be observed: the rest of e does not look at self and cannot raise
+            top = s.value
+            calls = [x for x in ast.walk(top) if isinstance(x, ast.Call) and x is not top and self.method_of(x) is not None
+                     and self.method_of(x)[0].rw]
+            if isinstance(s, ast.AugAssign) and isinstance(top, ast.Call) and self.method_of(top) is not None \
+                    and self.method_of(top)[0].rw:
+                calls = [top]
+            if len(calls) == 1 and isinstance(s, (ast.Assign, ast.AugAssign)) \
+                    and (isinstance(s, ast.AugAssign) and isinstance(s.target, ast.Name)
+                         or isinstance(s, ast.Assign) and len(s.targets) == 1 and isinstance(s.targets[0], ast.Name)):
+                call = calls[0]
+                others = [x for x in ast.walk(top) if isinstance(x, ast.Name) and x.id == "self"
+                          and not any(x is y for y in ast.walk(call))]
+                if others:
+                    bad(s, "mutating call inside an expression that reads self")
+                m, recv, setter, kind = self.method_of(call)
+                if kind == "const":
+                    bad(s, "mutation of a constant object")
+                fn.fresh += 1
+                tmpname = f"r{fn.fresh}_"
+                bs, ts = self.call_args(m, call, env)
+                env2 = dict(env)
+                env2[tmpname] = m.rty
+
+                # (on a copy: the source tree may be translated again)
+                top2 = copy.deepcopy(top)
+                call2 = next(b_ for a_, b_ in zip(ast.walk(top), ast.walk(top2)) if a_ is call)
+
+                class _Sub(ast.NodeTransformer):
+                    def visit_Call(self_, node):
+                        if node is call2:
+                            return ast.copy_location(ast.Name(id=tmpname, ctx=ast.Load()), node)
+                        return self_.generic_visit(node)
+                if isinstance(s, ast.AugAssign):
+                    val = ast.BinOp(left=_load(s.target), op=s.op, right=_Sub().visit(top2), lineno=s.lineno)
+                    tgt_ = s.target
+                else:
+                    val, tgt_ = _Sub().visit(top2), s.targets[0]
+                ast.fix_missing_locations(val)
+                b2, txt, ty = self.E(val, env2, env.get(tgt_.id) if isinstance(env.get(tgt_.id), tuple)
+                                     and env[tgt_.id][0] == "opt" else None)
+                if b2:
+                    bad(s, "mutating call inside an expression that can raise")
+                env3 = dict(env)
+                env3[tgt_.id] = ty
+                return self.with_bindings(bs, self.state_call(s, self.call_text(m, recv, ts), setter, tmpname,
+                                                              f"let {tgt_.id} := {txt} in\n" + cont(env3)))
         if isinstance(s, ast.AnnAssign) and s.value is None and isinstance(s.target, ast.Name):
             return cont(env)      # a declaration
         ann_want = None
@@ -1900,9 +2053,10 @@ def param_type(fd, cls, a):
     return VIEW_PARAMS.get((cls, fd.name, a.arg)) or ann(a.annotation)
 
 
-def truthy_only(fd):
+def truthy_only(fd, methods=None):
     """the parameters that the body only uses as the operand of `not`, as the test of an if / a conditional
-    expression, or as an argument of a logging call (dropped)"""
+    expression, as an argument of a logging call (dropped), or as the argument of a method of self for a
+    parameter that is itself only used so"""
     parents = {}
     for p in ast.walk(fd):
         for c in ast.iter_child_nodes(p):
@@ -1919,6 +2073,13 @@ def truthy_only(fd):
                         or (isinstance(p, ast.Call) and isinstance(p.func, ast.Attribute)
                             and isinstance(p.func.value, ast.Name) and p.func.value.id == "log")):
                     continue
+                if isinstance(x.ctx, ast.Load) and methods and isinstance(p, ast.Call) \
+                        and isinstance(p.func, ast.Attribute) and isinstance(p.func.value, ast.Name) \
+                        and p.func.value.id == "self" and p.func.attr in methods and not p.keywords:
+                    m = methods[p.func.attr]
+                    i = next((j for j, a_ in enumerate(p.args) if a_ is x), None)
+                    if i is not None and i < len(m.pnames) and m.pnames[i] in m.truthy:
+                        continue
                 ok = False
         if ok:
             out.add(a.arg)
@@ -1937,7 +2098,7 @@ def translate_total(fd, cls, cname, consts, methods, funs, classes):
     if b or ty != rt:
         raise Unsupported("the returned expression can raise")
     ps = "".join(f" ({n} : {cty(t_)})" for n, t_ in zip(pn, pt))
-    return f"Definition {cname} (self : {CLASSES[cls][0]}){ps} : {cty(rt)} :=\n{t}."
+    return f"Definition {cname} (self : {CLASSES[cls][0]}){ps} : {cty(rt)} :=\n{helper_prefix(fn.used_helpers)}{t}."
 
 
 def translate_init(fd, cls, cname, consts, funs, classes, inits):
@@ -1989,11 +2150,12 @@ def translate_init(fd, cls, cname, consts, funs, classes, inits):
         raise Unsupported(f"__init__ does not assign {missing}")
     record = "{| " + "; ".join(f"{fields[a][0]} := {fn.init_fields[a][0]}" for a in fields) + " |}"
     ps = "".join(f" ({n} : {cty(t)})" for n, t in params)
-    return f"Definition {cname}{ps} : {rec} :=\n" + "".join(lets) + record + "."
+    return f"Definition {cname}{ps} : {rec} :=\n" + helper_prefix(fn.used_helpers) + "".join(lets) + record + "."
 
 
 def translate_function(fd, cls, cname, rw, consts, methods, funs, classes=None, bytearray_funs=(), total=False,
-                       struct_ok=False):
+                       struct_ok=False, helper=None, level=1):
+    """helper: the definition is a Helper; its text is stored in it as a function, and nothing is returned"""
     args = fd.args.args[1:] if cls else fd.args.args
     if fd.args.vararg or fd.args.kwarg or fd.args.kwonlyargs:
         raise Unsupported("parameter form")
@@ -2002,9 +2164,19 @@ def translate_function(fd, cls, cname, rw, consts, methods, funs, classes=None, 
     rt = VIEW_RETURNS.get((cls, fd.name)) or ann(fd.returns, ret=True)
     fn = Fn(fd.name, cls, rw, params, rt, consts, methods, funs, classes, fd, bytearray_funs)
     fn.struct_ok = struct_ok
+    fn.level = level
     tr = Tr(fn)
+
+    def finish(body, rtext):
+        selfp = f" (self : {CLASSES[cls][0]})" if cls else ""
+        ps = selfp + "".join(f" ({n} : {cty(t)})" for n, t in params)
+        if helper is not None:
+            helper.lam = (f"fun{ps} =>\n{body}" if ps else f"({body} : {rtext})")
+            helper.deps = list(fn.used_helpers)
+            return None
+        return f"Definition {cname}{ps} : {rtext} :=\n{helper_prefix(fn.used_helpers)}{body}."
     if total:
-        if cls or rw:
+        if rw or (cls and helper is None):
             raise Unsupported("a method as a plain value")
         tr.total = True
         tr.ret_vars = set()
@@ -2015,20 +2187,15 @@ def translate_function(fd, cls, cname, rw, consts, methods, funs, classes=None, 
             if tr.falls_through(fd.body):
                 raise Unsupported("the body can end without a return")
             body = tr.B(fd.body, env, lambda e: bad(fd, "end of the body"))
-        ps = "".join(f" ({n} : {cty(t)})" for n, t in params)
-        return f"Definition {cname}{ps} : {cty(rt)} :=\n{body}."
+        return finish(body, cty(rt))
     if any(isinstance(x, (ast.Yield, ast.YieldFrom)) for x in ast.walk(fd)):
         raise Unsupported("generator")
     tr.ret_vars = {s.value.id for s in ast.walk(fd) if isinstance(s, ast.Return) and isinstance(s.value, ast.Name)}
     env = dict(params)
     body = tr.B(fd.body, env, lambda e: tr.ret("tt"))
-    ps = "".join(f" ({n} : {cty(t)})" for n, t in params)
-    if cls:
-        rec = CLASSES[cls][0]
-        if rw:
-            return f"Definition {cname} (self : {rec}){ps} : outcome {cty(rt)} * {rec} :=\n{body}."
-        return f"Definition {cname} (self : {rec}){ps} : outcome {cty(rt)} :=\n{body}."
-    return f"Definition {cname}{ps} : outcome {cty(rt)} :=\n{body}."
+    if cls and rw:
+        return finish(body, f"outcome {cty(rt)} * {CLASSES[cls][0]}")
+    return finish(body, f"outcome {cty(rt)}")
 
 
 HEADER = ("(* GENERATED by tools/py2coq from /repo/src/hpack -- do not edit *)\n"
@@ -2058,6 +2225,25 @@ def check_struct(tree):
     found = {}
     for n in tree.body:
         if isinstance(n, ast.ClassDef):
+            # the constructors must build the plain tuple of their arguments (the typed view's FHeader / FNever
+            # carry exactly the arguments): `def __new__(cls, *args): return tuple.__new__(cls, args)`, nothing else
+            for x in n.body:
+                if isinstance(x, ast.Expr) and isinstance(x.value, ast.Constant):
+                    continue
+                if isinstance(x, ast.Assign) and len(x.targets) == 1 and isinstance(x.targets[0], ast.Name) \
+                        and x.targets[0].id in ("__slots__", "indexable"):
+                    if x.targets[0].id == "__slots__" and ast.unparse(x.value) != "()":
+                        return False
+                    continue
+                if isinstance(x, ast.FunctionDef) and x.name == "__new__" and not x.decorator_list:
+                    a = x.args
+                    body = [s for s in x.body if not (isinstance(s, ast.Expr) and isinstance(s.value, ast.Constant))]
+                    if ([p.arg for p in a.args] == ["cls"] and a.vararg is not None and a.vararg.arg == "args"
+                            and not a.kwonlyargs and a.kwarg is None and not a.posonlyargs and len(body) == 1
+                            and isinstance(body[0], ast.Return) and body[0].value is not None
+                            and ast.unparse(body[0].value) == "tuple.__new__(cls, args)"):
+                        continue
+                return False
             for x in n.body:
                 if isinstance(x, ast.Assign) and len(x.targets) == 1 and isinstance(x.targets[0], ast.Name) \
                         and x.targets[0].id == "indexable" and isinstance(x.value, ast.Constant) \
@@ -2205,8 +2391,106 @@ def main():
                 return n
         raise Unsupported(f"definition {name} not found")
 
-    def fun(tree, name, cls=None, cname=None, rw=False, methods=None):
-        return lambda: translate_function(find(tree, name, cls), cls, cname or name, rw, consts, methods or {}, funs)
+    # ---- auxiliary definitions: helper functions of the modules and helper methods of the translated classes that
+    # the fixed list below does not name.  One table of functions per Python module (what a call f(...) in that
+    # module means), one table of methods per class; a helper is an entry that is translated at its first use.
+    KNOWN_FUNS = {"hpack": {"_unicode_if_needed", "encode_integer", "decode_integer", "_dict_to_iterable", "_to_bytes"},
+                  "table": {"table_entry_size", "_build_static_table_mapping"}, "huffman": set(),
+                  "huffman_table": {"decode_huffman"}}
+    KNOWN_METHODS = {"HeaderTable": ("table", {"get_by_index", "add", "search", "maxsize", "_shrink"}),
+                     "HuffmanEncoder": ("huffman", {"encode"}),
+                     "Decoder": ("hpack", {"header_table_size", "decode", "_assert_valid_table_size",
+                                           "_update_encoding_context", "_decode_indexed", "_decode_literal_no_index",
+                                           "_decode_literal_index", "_decode_literal"}),
+                     "Encoder": ("hpack", {"header_table_size", "encode", "add", "_encode_indexed", "_encode_literal",
+                                           "_encode_indexed_literal", "_encode_table_size_change"})}
+    classes = {c: ClsInfo() for c in CLASSES}
+    mfuns = {"hpack": {}, "table": funs, "huffman": {}, "huffman_table": {}}
+    tmeth = {}
+    hmeth = classes["HuffmanEncoder"].methods
+    phase = [0]          # 0 while GInt.v is being written: a helper translated now only sees what GInt.v sees
+    helpers = []
+
+    def plain(fd):
+        return not fd.decorator_list and not (fd.name.startswith("__") and fd.name.endswith("__"))
+    hfuns = {m: [n for n in trees[m].body if isinstance(n, ast.FunctionDef) and n.name not in KNOWN_FUNS[m] and plain(n)]
+             for m in KNOWN_FUNS}
+    clash = {n.name for m in hfuns for n in hfuns[m]
+             if sum(1 for m2 in hfuns for n2 in hfuns[m2] if n2.name == n.name) > 1}
+
+    def helper_fun(mod, fd):
+        h = Helper(f"{mod}.{fd.name}", None, fd, f"{mod}_{fd.name}" if fd.name in clash else fd.name)
+
+        def tr_(h):
+            pn, pt, df = signature(fd, None)
+            rt = ann(fd.returns, ret=True)
+            h.level = phase[0] if mod == "hpack" else 1
+            try:
+                translate_function(fd, None, h.local, False, consts, {}, mfuns[mod], classes, total=True, helper=h,
+                                   level=h.level)
+                h.total = True
+            except Unsupported:
+                translate_function(fd, None, h.local, False, consts, {}, mfuns[mod], classes, helper=h, level=h.level)
+            h.entry = (h.local, pt, ("total" if h.total else "raises", rt), h)
+            status[h.key] = "translated"
+        h.translate = tr_
+        helpers.append(h)
+        return h
+    for mod in hfuns:
+        for fd in hfuns[mod]:
+            mfuns[mod][fd.name] = helper_fun(mod, fd)
+    # a helper function imported from a sibling module is the same function
+    for mod in hfuns:
+        for n in trees[mod].body:
+            if isinstance(n, ast.ImportFrom) and n.level == 1 and n.module in mfuns and n.module != mod:
+                for a in n.names:
+                    if isinstance(mfuns[n.module].get(a.name), Helper):
+                        mfuns[mod][a.asname or a.name] = mfuns[n.module][a.name]
+
+    def helper_methods(cls, methods, extra_tables=()):
+        """the helper methods of a class, entered in its table of methods (and in extra_tables)"""
+        mod, known = KNOWN_METHODS[cls]
+        cdef = next((n for n in trees[mod].body if isinstance(n, ast.ClassDef) and n.name == cls), None)
+        out = {}
+        for fd in (cdef.body if cdef else []):
+            if not (isinstance(fd, ast.FunctionDef) and fd.name not in known and plain(fd)):
+                continue
+            h = Helper(f"{mod}.{cls}.{fd.name}", cls, fd, f"{cls}_{fd.name}")
+            try:
+                pn, pt, df = signature(fd, cls)
+                m = Meth(h.local, False, pt, ann(fd.returns, ret=True), pn, defaults=df)
+                m.truthy = truthy_only(fd, methods)
+            except Unsupported as e:
+                status[h.key] = f"unsupported: {e}"
+                continue
+            m.helper, h.meth = h, m
+
+            def tr_(h, fd=fd, m=m):
+                if m.rw and cls == "HuffmanEncoder":
+                    raise Unsupported("a method that changes a HuffmanEncoder")
+                try:
+                    if m.rw:
+                        raise Unsupported("changes self")
+                    translate_function(fd, cls, h.local, False, consts, methods, mfuns[mod], classes,
+                                       bytearray_funs_, total=True, struct_ok=struct_ok_[0], helper=h)
+                    h.total = m.total = True
+                except Unsupported:
+                    translate_function(fd, cls, h.local, m.rw, consts, methods, mfuns[mod], classes, bytearray_funs_,
+                                       struct_ok=struct_ok_[0], helper=h)
+                status[h.key] = "translated"
+            h.translate = tr_
+            helpers.append(h)
+            methods[fd.name] = m
+            for t_ in extra_tables:
+                t_[fd.name] = m
+            out[fd.name] = (fd, m)
+        return out
+    bytearray_funs_ = set()
+    struct_ok_ = [False]
+
+    def fun(tree, name, cls=None, cname=None, rw=False, methods=None, mod="table", level=1):
+        return lambda: translate_function(find(tree, name, cls), cls, cname or name, rw, consts,
+                                          methods if methods is not None else {}, mfuns[mod], classes, level=level)
 
     def tes():
         fd = find(trees["table"], "table_entry_size")
@@ -2223,10 +2507,13 @@ def main():
         ps = " ".join(f"({a.arg} : {cty(env[a.arg])})" for a in fd.args.args)
         return f"Definition table_entry_size {ps} : Z :=\n{t}."
 
-    emit("GInt.v", [("hpack.encode_integer", fun(trees["hpack"], "encode_integer")),
-                   ("hpack.decode_integer", fun(trees["hpack"], "decode_integer"))], imp)
+    emit("GInt.v", [("hpack.encode_integer", fun(trees["hpack"], "encode_integer", mod="hpack", level=0)),
+                   ("hpack.decode_integer", fun(trees["hpack"], "decode_integer", mod="hpack", level=0))], imp)
+    phase[0] = 1
+    for h in helpers:
+        if h.state == "done" and h.error is not None and h.key.startswith("hpack."):
+            h.state, h.error = "new", None      # it may need what the later files see
 
-    tmeth = {}
     # which HeaderTable methods mutate self (fixpoint over calls)
     tdefs = {}
     for nm in ("_shrink", "add", "get_by_index", "search", "maxsize"):
@@ -2234,6 +2521,9 @@ def main():
             tdefs[nm] = find(trees["table"], nm, "HeaderTable")
         except Unsupported:
             pass
+    thelp = helper_methods("HeaderTable", tmeth, [classes["HeaderTable"].methods])
+    for nm, (fd, m) in thelp.items():
+        tdefs[nm] = fd
     rw = set()
     changed = True
     while changed:
@@ -2245,6 +2535,9 @@ def main():
     coqname = {"_shrink": "HeaderTable__shrink", "add": "HeaderTable_add", "get_by_index": "HeaderTable_get_by_index",
                "search": "HeaderTable_search", "maxsize": "HeaderTable_set_maxsize"}
     for nm, fd in tdefs.items():
+        if nm in thelp:
+            thelp[nm][1].rw = nm in rw
+            continue
         try:
             ptys = [ann(a.annotation) for a in fd.args.args[1:]]
             tmeth[nm] = Meth(coqname[nm], nm in rw, ptys, ann(fd.returns), [a.arg for a in fd.args.args[1:]])
@@ -2256,14 +2549,18 @@ def main():
                       fun(trees["table"], nm, "HeaderTable", coqname[nm], nm in rw, tmeth)))
     emit("GTable.v", items, imp)
 
+    for nm, (fd, m) in helper_methods("HuffmanEncoder", hmeth).items():
+        m.rw = mutates_self(fd, set())
     emit("GHuff.v", [("huffman.HuffmanEncoder.encode",
-                     fun(trees["huffman"], "encode", "HuffmanEncoder", "HuffmanEncoder_encode", False, {})),
-                    ("huffman_table.decode_huffman", fun(trees["huffman_table"], "decode_huffman"))], imp)
+                     fun(trees["huffman"], "encode", "HuffmanEncoder", "HuffmanEncoder_encode", False, hmeth, "huffman")),
+                    ("huffman_table.decode_huffman",
+                     fun(trees["huffman_table"], "decode_huffman", mod="huffman_table"))], imp)
 
     try:
         struct_ok = check_struct(ast.parse(open(os.path.join(src, "struct.py")).read()))
     except (OSError, SyntaxError):
         struct_ok = False
+    struct_ok_[0] = struct_ok
 
     # ---------------- hpack.Decoder, hpack.Encoder (objects that hold a HeaderTable)
     hp = trees["hpack"]
@@ -2274,10 +2571,9 @@ def main():
     def sig_of(fd, cls, cname, **kw):
         pn, pt, df = signature(fd, cls)
         m = Meth(cname, False, pt, ann(fd.returns, ret=True), pn, defaults=df, **kw)
-        m.truthy = truthy_only(fd)
+        m.truthy = truthy_only(fd, classes[cls].methods if cls in classes else None)
         return m
 
-    classes = {c: ClsInfo() for c in CLASSES}
     for nm, m in tmeth.items():
         m.ok = translated(f"table.HeaderTable.{nm}")
         if nm == "maxsize":
@@ -2307,8 +2603,12 @@ def main():
         except Unsupported as e:
             status[f"hpack.{c}.{a}"] = f"unsupported: {e}"
 
-    funs2 = dict(funs)
-    bytearray_funs = set()
+    funs2 = mfuns["hpack"]        # what a call f(...) in hpack.py means, from here on
+    for n in hp.body:
+        if isinstance(n, ast.ImportFrom) and n.level == 1 and n.module == "table" \
+                and any(a.name == "table_entry_size" and a.asname is None for a in n.names):
+            funs2["table_entry_size"] = funs["table_entry_size"]
+    bytearray_funs = bytearray_funs_
     for key, tree, name in (("hpack.encode_integer", hp, "encode_integer"), ("hpack.decode_integer", hp, "decode_integer"),
                             ("huffman_table.decode_huffman", trees["huffman_table"], "decode_huffman")):
         if translated(key):
@@ -2317,10 +2617,17 @@ def main():
             if isinstance(fd.returns, ast.Name) and fd.returns.id == "bytearray":
                 bytearray_funs.add(name)
 
+    seen_classes = set()
+
     def object_class(cls, plan, fname, first, extra, pre=""):
         """plan: (python name, kind, coq name) with kind method | getter | setter, in an order in which
         callees precede callers"""
         defs, names = {}, {}
+        if cls not in seen_classes:
+            seen_classes.add(cls)
+            for nm, (fd, m) in helper_methods(cls, classes[cls].methods).items():
+                defs[(nm, "method")] = fd
+                names[(nm, "method")] = m
         for nm, kind, cname in plan:
             try:
                 fd = find(hp, nm, cls) if kind == "method" else find_accessor(hp, cls, nm, kind == "setter")
@@ -2429,6 +2736,16 @@ def main():
     emit("GInit.v", [("table.HeaderTable.__init__",) + init_of(trees["table"], "HeaderTable", "HeaderTable_init"),
                      ("hpack.Decoder.__init__",) + init_of(hp, "Decoder", "Decoder_init"),
                      ("hpack.Encoder.__init__",) + init_of(hp, "Encoder", "Encoder_init")], imp)
+
+    for h in helpers:
+        # the helpers that nothing uses are translated all the same, to be reported
+        try:
+            h.ensure()
+        except Unsupported as e:
+            status.setdefault(h.key, f"unsupported: {h.error}")
+    for h in helpers:
+        if h.error is not None:
+            status[h.key] = f"unsupported: {h.error}"
 
     write_if_changed(os.path.join(out, "status.json"), json.dumps(status, indent=1, sort_keys=True) + "\n")
     bad_ = {k: v for k, v in status.items() if v != "translated"}
